@@ -1,7 +1,7 @@
 (* Correspondence glue: the observation the harness can make of a Go error value,
    the same observation computed from the model, and the comparison evaluated by
    vm_compute on the cases the harness wrote. *)
-From Errors Require Import Model.
+From Errors Require Import Model Heap.
 From Coq Require Import PeanoNat NArith.
 
 Definition mkc n i f m to te fa : core :=
@@ -45,3 +45,40 @@ Definition status_mismatches (cs : list (N * val * nat * grpc_code * core)) : li
                    | Some c => if core_eq_dec (core_of_resp (resp_of_core c)) back then true else false
                    | None => false end in
      if okst && okcode && okback then [] else [i] end) cs.
+
+(* ---- histories of merges over variables (Heap.v) ---- *)
+Inductive vobs :=
+| VONil
+| VOPlain (m : string)
+| VOObj (wrapped : bool) (c : core) (h : list core) (cs : list nat).
+
+Fixpoint insert_nodup (x : nat) (l : list nat) : list nat :=
+  match l with
+  | [] => [x]
+  | y :: r => if Nat.ltb x y then x :: l else if Nat.eqb x y then l else y :: insert_nodup x r
+  end.
+Definition norm_causes (l : list nat) : list nat := fold_right insert_nodup [] l.
+
+Definition obs_var (h : list serr) (r : ref) : vobs :=
+  match r with
+  | RNil => VONil
+  | RPlain m _ => VOPlain m
+  | RObj n => let s := get_obj h n in VOObj false (cur s) (history s) (norm_causes (causes s))
+  | RWrap n => let s := get_obj h n in VOObj true (cur s) (history s) (norm_causes (causes s))
+  end.
+
+Definition vobs_eq_dec (a b : vobs) : {a = b} + {a <> b}.
+Proof.
+  decide equality; try apply string_dec; try apply bool_dec; try apply core_eq_dec;
+    try (apply list_eq_dec; apply Nat.eq_dec); try (apply list_eq_dec; apply core_eq_dec).
+Defined.
+
+Definition heap_mismatches (cs : list (N * hstate * list op * list vobs)) : list N :=
+  flat_map (fun c => match c with (i, st0, ops, observed) =>
+     let st := run ops st0 in
+     if list_eq_dec vobs_eq_dec (map (obs_var (heap st)) (vars st)) observed then [] else [i] end) cs.
+
+Definition client_mismatches (cs : list (N * nat * bool * bool * bool)) : list N :=
+  flat_map (fun c => match c with (i, code, to, te, fa) =>
+     match client_flags code with (a, b, d) =>
+       if Bool.eqb a to && Bool.eqb b te && Bool.eqb d fa then [] else [i] end end) cs.
